@@ -480,6 +480,14 @@ def gen_lines(model, beh, rng, n):
             elif len(words[i]) > 1:
                 words[i] = words[i][:-1]
                 kind = "truncated@%d/%d" % (i, len(words))
+        elif len(words) >= 2 and roll < 11 and roll >= 9:
+            # a word that is not EQUAL to anything expected there but would MATCH it as a shell pattern (`c1x?`, `c1*`): acceptance
+            # must be by string equality, never by treating the typed word (or a candidate) as a glob pattern
+            i = rng.below(len(words) - 1)
+            w = words[i]
+            if len(w) >= 2 and not any(ch in w for ch in "*?[]\\ "):
+                words[i] = rng.choice([w[:-1] + "?", w[:-1] + "*", w[:-2] + "*", w[:-1] + "[" + w[-1] + "]"])
+                kind = "globbed@%d/%d" % (i, len(words))
         elif len(words) >= 2 and roll < 9:
             # a candidate of ANOTHER command (preferably one accepted earlier on this line) where it is not expected: state left
             # over from an earlier command / an earlier completion in the same shell must not make it acceptable
